@@ -57,6 +57,9 @@ def ref_basis(cfg):
     single = {"Q": pauli(True), "T": gell_mann()}
     if cfg == "Q1u":
         return pauli(False)
+    if cfg == "Q1x":
+        P = pauli(True)
+        return [P[1], P[0], P[2], P[3]]
     if cfg == "Q1h":
         return None  # checked for orthonormality/hermiticity only
     kinds = {"Q1": "Q", "T1": "T", "Q2": "QQ", "QT": "QT", "TQ": "TQ", "Q3": "QQQ", "T2": "TT", "Q4": "QQQQ"}[cfg]
